@@ -10,10 +10,12 @@ import (
 	"encoding/json"
 	"fmt"
 	"os"
+	"strings"
 
 	"github.com/gopacket/gopacket"
 
 	"github.com/scionproto/scion/pkg/addr"
+	"github.com/scionproto/scion/pkg/log"
 	"github.com/scionproto/scion/pkg/slayers"
 	"github.com/scionproto/scion/router/underlayproviders/udpip"
 
@@ -48,8 +50,11 @@ func replayData(dv *dpVar, raw []byte, link uint16, headroom int, what string) m
 // sc may be nil (unknown expectation). Returns the outcome.
 func (en *engine) feed(dv *dpVar, raw []byte, link uint16, headroom int, sc *scen, stream, what string, reqAuthKnown, reqAuth bool) outcome {
 	e := en.e
+	if len(raw) > 9000-headroom && sc != nil {
+		headroom = 512 // built packets fit a real buffer
+	}
 	if max := 9000 - headroom; len(raw) > max {
-		raw = raw[:max]
+		raw = raw[:max] // what a socket read into the packet buffer returns
 	}
 	o := dv.run(raw, link, headroom, false)
 	scope := scopeOf(link)
@@ -96,6 +101,9 @@ func (en *engine) feed(dv *dpVar, raw []byte, link uint16, headroom int, sc *sce
 				m["out"] = hex.EncodeToString(res.Out)
 				m["egress"] = res.Egress
 				key := "C08/forwarded-inconsistent/" + pathTypeName(raw)
+				if strings.HasPrefix(why, "PayloadLen") {
+					key = "C08/forwarded-payloadlen-mismatch/" + pathTypeName(raw)
+				}
 				e.Violate(key, "forwarded packet: "+why, m)
 			}
 		}
@@ -227,6 +235,18 @@ func main() {
 		"Every datagram goes link.receive -> computeProcID -> processPkt -> slow path as in the router. " +
 		"non-trivial = reached the fast path and was not discarded (or STUN reply); distinct by (data plane, link, bytes)"
 
+	if os.Getenv("VERIF_SCMP_DEBUG") != "" {
+		_ = log.Setup(log.Config{Console: log.ConsoleConfig{Level: "debug"}})
+		for i := 0; i < 400; i++ {
+			sc := en.g.valid(validKinds[i%7], false)
+			raw, _ := en.g.b.build(sc)
+			o := en.dvs[0].run(raw, sc.link, 512, false)
+			if o.res.Disp != sc.expDisp {
+				fmt.Println("MISMATCH", sc, o.stage, o.res.Disp)
+			}
+		}
+		return
+	}
 	if e.Replay != "" {
 		en.replay(e.Replay)
 		en.finish()
